@@ -55,3 +55,24 @@ func TestDevSizes(t *testing.T) {
 		}
 	}
 }
+
+func TestDevStrata(t *testing.T) {
+	if os.Getenv("C03_STRATA") == "" {
+		t.Skip()
+	}
+	for _, th := range []bool{false, true} {
+		for _, mk := range []func(bool) *plan{l0Plan, rawPlan} {
+			p := mk(th)
+			tot := map[string]int64{}
+			for _, s := range p.segs {
+				tot[s.stratum] += s.size
+			}
+			fmt.Println("thorough=", th, "total", p.size)
+			for k, v := range tot {
+				if v*50 > p.size {
+					fmt.Println("   ", k, v)
+				}
+			}
+		}
+	}
+}
